@@ -80,6 +80,9 @@ def handle : List String → String
       else if kind == "g" then txt (formatGeneral p b upper (flag alt) (flag asf))
       else "bad-request"
     | _, _ => "bad-request"
+  | ["decfacts", b] => match b.toNat? with
+    | some b => if decide (DecFacts b) then "ok" else "fail"
+    | _ => "bad-request"
   -- reference definitions (Spec), validated against CPython
   | ["pyrepr", b] => match b.toNat? with
     | some b => txt (Spec.pyRepr b)
